@@ -43,6 +43,7 @@ type fakeClient struct {
 	onJoined      func(kind string)
 	onPushClient  func(kind, id string)
 	onGetStats    func()
+	onPushConn    func(g *group.Group)
 	events        atomic.Int64
 }
 
@@ -77,6 +78,9 @@ func (c *fakeClient) Permissions() []string {
 	return c.perms
 }
 func (c *fakeClient) PushConn(g *group.Group, id string, up conn.Up, tracks []conn.UpTrack, replace string) error {
+	if c.onPushConn != nil {
+		c.onPushConn(g)
+	}
 	return nil
 }
 func (c *fakeClient) RequestConns(target group.Client, g *group.Group, id string) error { return nil }
@@ -625,8 +629,20 @@ func TestVerif_C13_CoordinatedSchedules(t *testing.T) {
 		}
 		pauseIn := rapid.SampledFrom([]string{"Permissions", "Permissions", "Joined", "PushClient", "GetStats"}).Draw(t, "pauseIn")
 		first := rapid.SampledFrom([]string{"join", "join", "leave-op", "lock", "reload", "stats"}).Draw(t, "pausedOperation")
-		second := rapid.SampledFrom([]string{"whip-close", "whip-close", "whip-offer", "whip-offer", "whip-offer-then-close", "join", "leave", "kick-whip", "stats", "getclients", "web-offer", "web-offer"}).Draw(t, "meanwhile")
+		second := rapid.SampledFrom([]string{"whip-close", "whip-close", "whip-offer", "whip-offer", "whip-offer-then-close", "join", "leave", "kick-whip", "stats", "getclients", "web-offer", "web-offer",
+			"recorder-asks-whip", "recorder-asks-whip"}).Draw(t, "meanwhile")
 		offerSDP := c13WhipOffer()
+		// a recording client asks the WHIP member for its streams; like the real recorder, it warns the group's operators
+		// (which walks the members under the group's lock) when it is pushed a stream it cannot use
+		R := &fakeClient{id: "R"}
+		R.onPushConn = func(g *group.Group) { g.WallOps("recorder: no usable tracks") }
+		if second == "recorder-asks-whip" {
+			ctx, cancel := context.WithTimeout(context.Background(), 10*time.Second)
+			if _, err := W.NewConnection(ctx, []byte(offerSDP)); err != nil {
+				t.Fatalf("VERIF-HARNESS-ERROR: WHIP offer in the set-up: %v", err)
+			}
+			cancel()
+		}
 		if rapid.IntRange(0, 3).Draw(t, "statsVsOffer") == 0 {
 			// the statistics page walking the members while a member's loop sets up a connection
 			pauseIn, first, second = "GetStats", "stats", "web-offer"
@@ -714,6 +730,8 @@ func TestVerif_C13_CoordinatedSchedules(t *testing.T) {
 				stats.GetGroups()
 			case "getclients":
 				g.GetClients(nil)
+			case "recorder-asks-whip":
+				W.RequestConns(R, g, "")
 			case "web-offer":
 				// the web client's own loop: an offer for a new stream, then whatever got queued for it
 				handleClientMessage(wb.c, clientMessage{Type: "offer", Id: "wbup", Label: "camera", SDP: offerSDP})
